@@ -46,12 +46,16 @@ CLAIMS = {
     "C11": dict(
         category="other",
         technique="call-graph reachability of explicit panic sites with caller-context projection (difference "
-        "constraints), REQUIRES propagation for divisors/array indices (MOD1), must-no-write-before-panic paths",
+        "constraints), REQUIRES propagation for divisors/array indices (MOD1) and for subtraction operands (SUB1), "
+        "must-no-write-before-panic paths",
         text="Static decision of: which public entries can reach an explicit panic on a normal path, compared with the "
         "documented table (PAN1); internal callers discharge asserting callees and build only non-panicking range "
         "shapes (PAN2); documented panics precede any buffer write (PAN3); no Rem/Div by or element index into a zero "
         "capacity is reachable from any public entry (MOD1); no Add/Mul on caller-supplied indices outside reviewed "
-        "sites (ARITH1); every normal return of an asserting function passes its documented assertions (PAN4). Thorough "
+        "sites (ARITH1); every normal return of an asserting function passes its documented assertions (PAN4); no usize "
+        "subtraction over transparent operands (parameters, constants, size/start, slice lengths, positions) can underflow "
+        "— an undocumented panic in debug builds, a wrapped index in release — by REQUIRES(b <= a) discharged at the site or "
+        "propagated to the callers (SUB1; obligations over opaque values are counted as undecided, never reported). Thorough "
         "tier, debug build: every debug assertion is proved unreachable from the public entries except a reviewed table "
         "of value-level ones (DBGASSERT1). Not decided: implicit bounds/range checks (counted; infeasible under INV), "
         "loop termination.",
@@ -78,12 +82,12 @@ CLAIMS = {
     "C03": dict(
         category="other",
         technique="closed who-may tables over resolved MIR (destructor sites, bit-copy/move-out sites, forget/"
-        "ManuallyDrop, unsafe-containing functions), occupancy typestate pairing, call-graph must-reach for owners",
+        "ManuallyDrop, unsafe-containing functions), occupancy typestate pairing, call-graph must-reach for owners, guard-fact entailment (difference constraints) at the slicing sites",
         text="Static decision of the structural part of exactly-once destruction: only the reviewed closed set of "
         "functions can destroy, bit-copy, move out, disarm or contains unsafe code (all others are safe code over T); in "
         "those, every move-out is paired with the size decrease and every size increase with the slot write, slots are "
         "written only when already counted, every public entry returns balanced; the owners (buffer Drop, IntoIter, "
-        "Drain::drop, From<[T;M]>) destroy what they hold. Also: drop_range returns without destroying only for an empty range (DESTROY1), the drain's un-yielded views are bounded by iter, never by range (DRNVIEW1), no iterator type overrides a provided method that moves or skips elements (ITERSET1). Not decided: that the slot ranges passed to drop_range/"
+        "Drain::drop, From<[T;M]>) destroy what they hold. Also: drop_range returns without destroying only for an empty range (DESTROY1), the drain's un-yielded views are bounded by iter, never by range (DRNVIEW1), no iterator type overrides a provided method that moves or skips elements (ITERSET1), what Drain::next/next_back hand out is read(i) for exactly the index the range iterator just produced (DRAINIT1), and the two pieces handed to the destructors (Drain views, drop_range) are one contiguous piece only where the guard facts entail lower < upper strictly and a split only where they entail upper <= lower (VIEWCMP1). Not decided: that the slot ranges passed to drop_range/"
         "drop_in_place/ptr::copy are the right ones (values).",
         note="Tables in rules/tables.py are reviewed by hand against the source; trusted: Rust's guarantees for safe "
         "code, rustc MIR. Range arithmetic not decided.",
@@ -168,11 +172,14 @@ CLAIMS = {
         category="other",
         engine="cargo+mirdump+rules",
         technique="cross-configuration diff of normalised resolved MIR against a reviewed table of cfg forks + shape "
-        "rules (operand provenance, positions) for each delegating arm",
+        "rules (operand provenance, positions) for each delegating arm, symbolic slice-length equality at the "
+        "equal-length API call sites",
         text="Static decision that a behavioural difference between the default and the `unstable` build can only "
         "originate in the reviewed set U of cfg-forked items (all other functions have identical resolved MIR in both "
         "nightly builds), and that each arm in U is the reviewed delegation to a std API with the same operands in the "
-        "same positions (DELEG1); the unstable build type-checks. The ownership and panic-safety rules (C02-C06, C09-C11) "
+        "same positions (DELEG1); write_clone_of_slice and the stable helper it replaces are called with destination and "
+        "source of symbolically equal length (EQLEN1: the std API panics where the stable helper may tolerate a longer "
+        "destination); the unstable build type-checks. The ownership and panic-safety rules (C02-C06, C09-C11) "
         "are evaluated on the unstable fact base in those checks' thorough tiers. Not decided: trace equality of the two "
         "builds; the std APIs' equivalence to the stable arms is reviewed and trusted.",
         note="[twin]-style rule: a behaviour-preserving rewrite of one arm would also be reported. Assumes documented "
@@ -198,12 +205,15 @@ CLAIMS = {
     "C19": dict(
         category="other",
         technique="taint-style provenance rule for position values over MIR (POS1), REQUIRES propagation for moduli "
-        "(MOD1), callee/constant table for size/alignment inspection (ZST1), store-shape rules for lengths (LEN1)",
+        "(MOD1) and subtraction operands (SUB1), callee/constant table for size/alignment inspection (ZST1), store-shape "
+        "rules for lengths (LEN1)",
         text="Static decision that position arithmetic is confined to add_mod/sub_mod (no raw start+i / offset+k / pos*k "
         "elsewhere — the construct that overflows for positions near N near usize::MAX), that their modulus is never "
         "zero, that element size/alignment/needs_drop is never inspected (zero-sized element types take the same paths "
-        "as any other), and that lengths are only stepped by one or assigned bounded values and never scaled. Not "
-        "decided: the number theory of add_mod's overflow compensation; underflow of N-1, N-index-1, M-size.",
+        "as any other), that lengths are only stepped by one or assigned bounded values and never scaled, and that no "
+        "usize subtraction over transparent operands (N - 1, N - size, size - len, N - position - 1, count - len ...) can "
+        "underflow (SUB1, 34 of 54 obligations decided; the rest mention opaque values and are listed as undecided). Not "
+        "decided: the number theory of add_mod's overflow compensation (its result < m is assumed); M - <loop counter> in From<[T; M]>.",
         note="Value-level arithmetic correctness of add_mod itself is not decided by this family.",
         ref="DESIGN.md §5 C19",
     ),
@@ -231,7 +241,7 @@ CLAIMS = {
         "as_mut_slices; to_vec/Debug/Hash/PartialOrd/Ord/&IntoIterator -> iter), that get/front/back (and pop/remove) "
         "answer None only over an edge establishing N==0, size==0 or index>=size and Some only under index<size / size>0 "
         "(NONE1), and that each mutable accessor performs the same steps on the same operands as its shared twin (TWIN "
-        "x11). Also: the contiguity tests of the sibling view functions agree and are the strict lower<upper (VIEWCMP1), index-kind inference (KIND1), Iter/IterMut override no provided iterator method (ITERSET1). Not decided: agreement of the two primitives with each other, make_contiguous's result, range selection.",
+        "x11). Also: every view builds its single contiguous piece items[lower..upper] only where the guard facts entail lower < upper strictly and splits/rotates the array only where they entail upper <= lower, whatever the spelling of the test (VIEWCMP1); front/back-like accessors that forward to get(_mut) do so only under size > 0 with the index size-1 resp. 0 (NONE1, forwarder form), index-kind inference (KIND1), Iter/IterMut override no provided iterator method (ITERSET1). Not decided: agreement of the two primitives with each other, make_contiguous's result, range selection.",
         note="[twin]/shape rules: a behaviour-preserving rewrite of a forwarder or of one twin would also be reported. "
         "Distinctness of mutable references: borrow checker outside unsafe + closed table of unsafe producers (C03).",
         ref="DESIGN.md §5 C07",
@@ -274,8 +284,11 @@ CLAIMS = {
         text="Static decision that comparison/ordering/hash/Debug impls read buffer state only through len, as_slices and "
         "iter — never start, items or the capacity — so layout can influence them only through as_slices' split point; "
         "ordering = std's Iterator::partial_cmp/cmp of the two iter()s; hash = length once + one element hash per iter() "
-        "item (no segment-wise slice hashing); Debug = debug_list().entries(self).finish(); the five forwarding PartialEq "
-        "impls end, through any chain, in the base slice impl without recursion; the base impls test lengths first and "
+        "item, by closure or loop, nothing else fed (HASH1); Debug returns finish() of entries(..) on the one debug_list(), "
+        "fed with the whole sequence in order (self / iter() / as_slices().0 then .1) and uses the formatter for nothing else "
+        "(DBG1); the five forwarding PartialEq impls end, through any chain, in the base slice impl without recursion, comparing "
+        "exactly `self` with their parameter (FWD1); the base impls test lengths first, answer false without comparing when they "
+        "differ, and "
         "compare only sub-slices of the contents (BASE1); in buffer == buffer every arm's compared pieces partition both "
         "sequences — each segment whole, or as the complementary pair [..k],[k..] with the same k, in order (BASE2) — and "
         "every split point is a difference of first-segment lengths only (BASE3). Not decided: that the split points have "
